@@ -6,7 +6,8 @@ and its own site family:
   radiogenic  isotope tables = every non-empty subset of a 4-isotope menu (sizes 1..4) x reference time x time menu
               (incl. t_ref, t_ref +- half-life) x masses:  closed form (mpmath), additivity over every bipartition and
               over single isotopes, linearity in mass and in concentration, halving after one half-life, reference
-              value at t_ref;  `fixed` (same clauses, incl. the documented "half-life 0 = no decay");  `off`.
+              value at t_ref;  `fixed` (same clauses; the docstring's "half-life 0 = no decay" is observed and noted, not
+              asserted);  `off`.
   cooling     parameter menu x thickness (incl. MIN_THICKNESS and one-ulp neighbours) x dT (12 values incl. 0,
               float_eps and its one-ulp neighbours) x viscosity decades:  positivity, non-decreasing in dT and
               non-increasing in viscosity on *adjacent grid pairs*, convection >= conduction, `off`.
@@ -262,18 +263,20 @@ def _case_fixed(c, V, h):
     q, hl, tref = c['q'] * f, c['hl'], c['tref']
     S = 'C19/radiogenic/fixed'
     if hl == 0.0:
-        # documented: "average_half_life ... Set to 0 for no decay"  ->  mass * rate at every time
+        # NOT asserted (coordinator decision: the docstring promise "Set to 0 for no decay" is not part of the C19
+        # statement).  The behaviour is only observed and reported as a note in the evidence.
+        info = []
         for m in _masses(c['tier'], f):
             for t in (0.0, tref, 9000.0):
                 try:
                     got = float(fixed(t, m, q, 0.0, tref))
+                    msg = 'no-decay value' if rel(got, m * q) <= 4 * FEPS else f'value {got!r} != mass*rate'
                 except Exception as e:  # noqa: BLE001
-                    V.add(f'{S}/zero-half-life/exception/{type(e).__name__}', t=t, mass=m, msg=str(e)[:200])
-                    continue
-                h.update(np.float64(got).tobytes())
-                if not rel(got, m * q) <= 4 * FEPS:
-                    V.add(f'{S}/zero-half-life/value', t=t, mass=m, got=got, want=m * q)
-        return {}
+                    msg = f'raises {type(e).__name__}: {e}'
+                msg = f'radiogenic fixed(average_half_life=0) [docstring: "Set to 0 for no decay"]: {msg}'
+                if msg not in info:
+                    info.append(msg)
+        return dict(info=info)
     times = _times(tref, hl)
     worst = dict(closed=0.0, half=0.0)
     for m in _masses(c['tier'], f):
@@ -590,15 +593,17 @@ def run_case(c):
     h = hashlib.sha1(c['kind'].encode())
     status = 'pass'
     worst = {}
+    info = []
     try:
         r = KINDS[c['kind']](c, V, h)
         if isinstance(r, str):
             status = r
         else:
-            worst = r or {}
+            worst = dict(r or {})
+            info = worst.pop('info', [])
     except CodeRaised as e:
         V.add(f"C19/{FAMILY[c['kind']]}/exception/{e.args[0]}", msg=e.args[1])
-    return dict(status=status, viol=V.list(), obs=h.hexdigest(), worst=worst)
+    return dict(status=status, viol=V.list(), obs=h.hexdigest(), worst=worst, info=info)
 
 
 def replay(case):
@@ -612,7 +617,7 @@ def run(ctx):
         ctx, 'mc.props.C19:run_case', cs, chunk=1, exhaustive=False, min_admitted_frac=0.9,
         rule='full products. radiogenic: every non-empty subset of a 4-isotope menu x reference time (inside: 9 times incl. '
              't_ref and t_ref +- half-life x masses; closed form, every bipartition, linearity, half-life, reference value); '
-             'fixed: rate x half-life (incl. the documented 0) x reference time. cooling: parameter menu(3) x thickness(7, incl. '
+             'fixed: rate x half-life x reference time (half-life 0 observed only). cooling: parameter menu(3) x thickness(7, incl. '
              'MIN_THICKNESS and one-ulp neighbours) (inside: dT(12, incl. 0, float_eps and one-ulp neighbours) x viscosity decades, '
              'adjacent-pair monotonicity both ways). viscosity laws: parameter menu x pressure (inside: T grid 200..3000 K, adjacent '
              'pairs). melt laws: temperature x pre-melt/liquid menu x (crit, width) (inside: melt-fraction grid of [0,1] with 0, '
@@ -620,10 +625,17 @@ def run(ctx):
              'distinct = distinct sha1 of the raw outputs of a case')
     worst = {}
     kinds = {}
+    infos = []
     for c, r in zip(cs, res):
         kinds[c['kind']] = kinds.get(c['kind'], 0) + 1
+        for m in r.get('info') or []:
+            if m not in infos:
+                infos.append(m)
         for k, v in (r.get('worst') or {}).items():
             key = f"{c['kind']}:{k}"
             worst[key] = max(worst.get(key, 0.0), v)
     ctx.coverage['cases_by_kind'] = kinds
     ctx.coverage['worst_deviation'] = worst
+    ctx.coverage['observations_not_asserted'] = infos
+    for m in infos:
+        ctx.note('observed, not asserted: ' + m)
